@@ -136,11 +136,8 @@ def funcToBoolean (v : JV) : NRes :=
     else throw (errFunc0Wrap "toboolean" v (.builtin "text" [.str (B "invalid boolean")]))
   | v => throw (errFunc0 "toboolean" v)
 
-def isDigitB (c : UInt8) : Bool := 48 ≤ c.toNat && c.toNat ≤ 57
-
-def spanDigitsB : Bytes → Bytes × Bytes
-  | [] => ([], [])
-  | c :: rest => if isDigitB c then ((spanDigitsB rest).1.cons c, (spanDigitsB rest).2) else ([], c :: rest)
+/-- maximal run of decimal digits and the rest (the reader of Model/Encode.lean has the function) -/
+abbrev spanDigitsB : Bytes → Bytes × Bytes := Encode.spanDigits
 
 def stripSign : Bytes → Bool × Bytes
   | c :: rest => if c.toNat = 45 then (true, rest) else if c.toNat = 43 then (false, rest) else (false, c :: rest)
